@@ -69,7 +69,7 @@ func handleMore(toks []string) (string, bool) {
 		return runHist(toks[1], false), true
 	case "mhist":
 		return runHist(toks[1], true), true
-	case "chist":
+	case "chist", "mchist":
 		// histories separated by '#', each run in its own goroutine behind a start barrier
 		hs := strings.Split(toks[1], "#")
 		res := make([]string, len(hs))
@@ -87,7 +87,7 @@ func handleMore(toks []string) (string, bool) {
 				}()
 				ready.Done()
 				<-start
-				res[i] = runHist(hs[i], false)
+				res[i] = runHist(hs[i], toks[0] == "mchist")
 			}(i)
 		}
 		ready.Wait()
